@@ -42,6 +42,10 @@ type params struct {
 	TxTypes  []byte  `json:"txtypes,omitempty"`
 	Preset   string  `json:"preset,omitempty"` // bits already set in a loaded filter (hex of sparse positions)
 	preset   []uint32
+	// Ctor "reload": the Filter object first held another filter (PrevSize bytes, PrevK functions; PrevSize < 0:
+	// it was unloaded) and then received this one through Filter.Reload.
+	PrevSize int    `json:"prev_size,omitempty"`
+	PrevK    uint32 `json:"prev_k,omitempty"`
 }
 
 var fprates = []float64{-1, 0, 1e-12, 1e-9, 1e-6, 1e-4, 0.001, 0.01, 0.05, 0.1, 0.3, 0.5, 0.9, 0.999, 1.0, 2.0}
@@ -70,6 +74,11 @@ func drawParams(t *rapid.T, sideMode int) *params {
 		return p
 	}
 	p.Ctor = "load"
+	if rapid.IntRange(0, 3).Draw(t, "reload") == 0 {
+		p.Ctor = "reload"
+		p.PrevSize = rapid.OneOf(rapid.Just(-1), rapid.Just(0), rapid.IntRange(1, 40), rapid.IntRange(1, 600), rapid.IntRange(1, 36000)).Draw(t, "prevSize")
+		p.PrevK = uint32(rapid.IntRange(0, 50).Draw(t, "prevK"))
+	}
 	p.Size = rapid.OneOf(rapid.Just(0), rapid.IntRange(1, 4), rapid.IntRange(5, 40), rapid.IntRange(5, 40),
 		rapid.IntRange(20, 600), rapid.IntRange(20, 600), rapid.IntRange(20, 600), rapid.IntRange(1, 36000),
 		rapid.IntRange(1, 36000), rapid.IntRange(35990, 36000)).Draw(t, "size")
@@ -97,7 +106,19 @@ func build(p *params) (*bloom.Filter, *refFilter, *msg.FilterLoad) {
 		for _, b := range p.preset {
 			fl.Filter[b/8] |= 1 << (b % 8)
 		}
-		f = bloom.LoadFilter(fl)
+		if p.Ctor == "reload" {
+			prev := &msg.FilterLoad{Filter: make([]byte, maxInt(p.PrevSize, 0)), HashFuncs: p.PrevK, Tweak: ^p.Tweak}
+			f = bloom.LoadFilter(prev)
+			if p.PrevSize > 0 && p.PrevK > 0 {
+				f.Add([]byte("previous"))
+			}
+			if p.PrevSize < 0 {
+				f.Unload()
+			}
+			f.Reload(fl)
+		} else {
+			f = bloom.LoadFilter(fl)
+		}
 	}
 	for _, tt := range p.TxTypes {
 		fl.TxTypes = append(fl.TxTypes, common2.TxType(tt))
@@ -161,6 +182,13 @@ func sutMatches(f *bloom.Filter, e elem) bool {
 		return a
 	}
 	return f.Matches(e.b)
+}
+
+func maxInt(a, b int) int {
+	if a > b {
+		return a
+	}
+	return b
 }
 
 func classOf(p *params) string {
